@@ -231,9 +231,6 @@ def body(check):
     for c in c06.implicit_classes(proj):
         check.guarded("IMPLICIT-FORM", c.qualname, lambda: c06.th_scheme(check, proj, c), c.loc())
     check.guarded("IMPLICIT-FORM", "calc_jacobian", lambda: c06.fd_column(check, proj))
-    try:
-        from .c15 import telescope_2d
-    except ImportError:
-        telescope_2d = None
-    if telescope_2d is not None:
-        telescope_2d(check)
+    from . import c15
+    if check.guarded("LAYOUT-AGREE", "modeldisc.fvm2dcart", lambda: c15.layout_agree(check)):
+        check.guarded("TELESCOPE-2D", "modeldisc.fvm2dcart.calc_res", lambda: c15.telescope_2d(check))
